@@ -280,6 +280,11 @@ class Gen:
     def simple(self, env, full, in_loop_pre):
         """one simple statement, updating env/full"""
         r = self.r.random()
+        if self.borrowed and self.r.random() < self.naughty * 0.4:   # assign a borrowed parameter
+            n = self.r.choice(sorted(self.borrowed))
+            e = self.value(env, full, env.get(n, "q"))
+            self.fill(full, n, env.get(n, "q"))
+            return ("assign", [(n, env.get(n, "q"))], e)
         if r < 0.22:      # borrow: gate or borrowing call
             ty = self.r.choice(["q", "q", "q", "s", "t", "arr"])
             f = {"q": self.r.choice(["h", "bor"]), "s": "bor_s", "t": "bor_t", "arr": "bor_arr"}[ty]
